@@ -434,6 +434,7 @@ def decisionBudget : List (String × String × Nat) :=
    ("header", ">=", 1),
    ("header", "&&", 9),
    ("header", "conv:as", 7),
+   ("header", "sub", 2),
    ("header", ".contains", 2),
    ("header", "sml:0", 3),
    ("header", "sml:1", 4),
@@ -534,6 +535,7 @@ def decisionBudget : List (String × String × Nat) :=
    ("context", "!=", 3),
    ("context", "&&", 1),
    ("context", "lt", 1),
+   ("context", "sub", 1),
    ("context", "sml:0", 3),
    ("context", "sml:1", 3),
    ("context", "sml:2", 4),
